@@ -328,3 +328,50 @@ def deferred(chk, F, T, rid="R-DEFER"):
     # order: the consumer pops the rate first, then the invariant; the reader accepts the labels in any order
     names = {p.get("name") for p, _ in producers}
     chk.analysed[rid] = {"producers": sorted(names), "in_loop": bool(looped)}
+
+
+def expr_entry(chk, F, rid="R-EXPRENTRY"):
+    """parseExpression parses a text with the part S_EXPRESSION and takes the result from the top of the builder's operand
+    stack.  A text that is no expression (empty, `x +`) leaves no operand there - after the repair that makes a failed parse
+    drop what it pushed, never - so the read has to be licensed by the result of the parse or by the size of the stack
+    (seen by a round-8 sub-agent: `x +` crashed, the empty text always had)."""
+    from ..inline import sites_with_conditions, strip
+    from ..facts import calls, short
+    chk.rule(rid, "every function outside the builders that reads the top of ExpressionBuilder::getExpressions() does so only on "
+                  "a path on which the parse returned 0 or the stack was found non-empty")
+    n = 0
+    for fn in sorted(F.functions.values(), key=lambda f: (f.get("file") or "", f.get("line") or 0)):
+        fl = fn.get("file") or ""
+        if fn.get("body") is None or fl.startswith("/usr") or "/test/" in fl or (fn.get("cls") or "").endswith("Builder"):
+            continue
+
+        def is_read(x):
+            return x.get("k") == "call" and x.get("ck") == "op" and x.get("op") == "[]" and \
+                any(c.get("name") == "getExpressions" for c in calls(x.get("recv") if x.get("recv") is not None else (x.get("args") or [{}])[0]))
+        for site, conds in sites_with_conditions(fn["body"], is_read):
+            n += 1
+
+            def licenses(c, t):
+                c = strip(c)
+                if not isinstance(c, dict):
+                    return False
+                if c.get("k") == "bin" and c.get("op") == "||" and not t:
+                    return licenses(c["lhs"], False) or licenses(c["rhs"], False)
+                if c.get("k") == "bin" and c.get("op") == "&&" and t:
+                    return licenses(c["lhs"], True) or licenses(c["rhs"], True)
+                txt = short(c)
+                if c.get("k") == "bin" and c.get("op") in ("!=", "==", ">", "<", ">=", "<="):
+                    if any(x.get("name") == "parse_XTA" for x in calls(c)) and "0" in txt:
+                        return (c["op"] == "!=" and not t) or (c["op"] == "==" and t)
+                    if "size" in txt and "getExpressions" in txt and "0" in txt:
+                        return (c["op"] == "==" and not t) or (c["op"] in ("!=", ">") and t)
+                if c.get("k") == "call" and c.get("name") == "empty" and "getExpressions" in txt:
+                    return not t
+                return False
+            ok = any(licenses(c, t) for c, t in conds if isinstance(c, dict) and c.get("k") != "caseof")
+            chk.ob(rid, "%s|top operand" % fn["name"], ok,
+                   "%s reads the top of the builder's operand stack without having asked whether the parse succeeded or the stack "
+                   "holds anything: for a text that is no expression (`x +`, the empty text) it indexes an empty vector" % fn["q"],
+                   "%s:%s" % (fl, site.get("l")), sample="%s reads the operand only after a successful parse" % fn["name"])
+    if n < 1:
+        raise AnalysisBroken("R-EXPRENTRY: no read of getExpressions()[..] outside the builders found")
